@@ -33,7 +33,7 @@ SCRIPTS = {
 def make_run(cfg):
     install_shims()
     from Pyro5 import config, svr_threads
-    watch = S.watch_functions(svr_threads.Pool, svr_threads.Worker)
+    watch = S.watch_functions(svr_threads.Pool, svr_threads.Worker, follow=True)
     script = SCRIPTS[cfg["script"]]
     MIN, MAX = cfg["min"], cfg["max"]
 
